@@ -49,6 +49,17 @@ ASSUMPTIONS = ["start, stop_hint < 2^64; histories end at the first primesieve_e
                "of 2*sqrt(n) numbers)"]
 
 
+try:                                   # WP core: sieving core (Erat*, PreSieve, bit extraction) — optional
+    from . import c18core
+except ImportError:
+    c18core = None
+EXTRACTORS = list(getattr(c18core, "EXTRACTORS", [])) if c18core is not None else []
+
+
+def generated_obligations():
+    return getattr(c18core, "generated_obligations", lambda: 0)() if c18core is not None else 0
+
+
 def _pp(n):
     from ..pi_common import _is_probable_prime
     return _is_probable_prime(n)
@@ -135,15 +146,21 @@ def it_ops(ctx):
         return a, r.choice(hints(r, a))
     for s0 in structured_starts(rng, q):
         hs = hints(rng, s0)
-        for h in (hs if (s0 <= 100 and s0 % 10 == 0) or s0 > 100 else rng.sample(hs, 2)):
+        for h in (hs if (s0 <= 100 and s0 % 10 == 0) or (s0 > 100 and not q) else rng.sample(hs, 2 if s0 <= 100 else 4)):
             mode = rng.choice("vw")
-            maxrun = 3000 if s0 < 10 ** 8 else 300
+            # the model's buffer is a List (indexing costs O(i_)): keep runs short where backward windows hold 10^5 primes
+            maxrun = 1500 if s0 < 10 ** 8 else 60 if s0 < 10 ** 11 else 25
             st.append("it %s %d %d %s" % (mode, s0, h, " ".join(rand_script(rng, maxrun, jumps=jumps))))
     # buffer ends: walk exactly one batch (size known only at run time: long runs cross several refills), then turn around
     for s0 in (0, 1000, 10 ** 6, 2 ** 32 - 5000):
         st.append("it w %d %d n*1030 p*3 n*5 p*1100 n*3" % (s0, UMAX))
         st.append("it w %d %d p*3 n*5 p*40 n*2000 p*2001 n" % (s0 + 10 ** 5, UMAX))
         st.append("it v %d %d g g n p p G p n" % (s0, s0 + 50000))
+    # more than 1024 primes out of ONE forward window, then back past index 0 of a LATER batch of that window
+    # (generate_prev_primes must continue below primes.front(), not below the window start)
+    st.append("it v 0 %d n*5000 p*3000 n*10" % UMAX)
+    st.append("it w 400000000 %d n*2100 p*1200 n*3" % UMAX)
+    st.append("it v 1000 4000000 n*2500 p*2400 n" )
     # (c) large starts: hinted (small windows) for both directions, unhinted forward only
     for s0 in big_starts(rng, q):
         up = min(UMAX - 1, s0 + rng.randint(100, 3000))
@@ -156,6 +173,7 @@ def it_ops(ctx):
         big += [fwd, bwd] if not q else [rng.choice((fwd, bwd))]      # every refill up there costs the real code 1-2 s
         if rng.random() < (0.25 if q else 1.0):
             big.append("it v %d %d n*%d p n g" % (s0, UMAX, rng.randint(1, 40)))
+    big.append("it v %d %d n*2500 p*600" % (2 ** 48, UMAX))               # same, where one window holds 5e5 primes
     if not q:
         big.append("it v %d %d p*3 n*4" % (2 ** 48 + 12345, UMAX))          # unhinted prev: window of 3.3e7 numbers
     # (d) the end of the 64-bit range
@@ -359,11 +377,8 @@ def streams(ctx):
         return ["%s %d" % (o, nth_hint(int(o.split()[1]), 0)) for o in ops_]
     sts.append(Stream("pc-generate", pc, oracle=True))
     sts.append(Stream("pc-generate-n", pcn, oracle=True, model_ops=pcn_model))
-    try:
-        from . import c18core
+    if c18core is not None:
         sts += c18core.streams(ctx)
-    except ImportError:
-        pass
     return sts
 
 
@@ -375,5 +390,13 @@ def search(ctx, proof_broken, bad, dis):
         k = (d.get("stream"), d.get("oracle"))
         (rest if k in seen else first).append(d)
         seen.add(k)
-    default_search(ctx, proof_broken, bad, first + rest)
+    core_search = getattr(c18core, "search", None) if c18core is not None else None
+    mine = [d for d in first + rest if not str(d.get("stream", "")).startswith("core")]
+    theirs = [d for d in first + rest if str(d.get("stream", "")).startswith("core")]
+    if core_search is not None and theirs:
+        if not core_search(ctx, None, [], theirs):
+            mine += theirs
+    else:
+        mine += theirs
+    default_search(ctx, proof_broken, bad, mine)
     return True
